@@ -8,10 +8,13 @@ from .base import spec
 BATCH = [(), (2,), (1, 2)]
 
 
-def _mat(T, batch, n, m=None, sym=False, spd=False, cplx=None):
-    """Well-conditioned generic matrix: diagonally dominant (or SPD / symmetric) fill."""
+def _mat(T, batch, n, m=None, sym=False, spd=False, cplx=None, sympoint=False):
+    """Well-conditioned generic matrix: diagonally dominant (or SPD / symmetric) fill.
+    sympoint: an exactly symmetric (not Hermitian) evaluation point of a function of a general matrix."""
     m = n if m is None else m
     a = T.arr(batch + (n, m), -1.0, 1.0, cplx=cplx)
+    if n == m and sympoint:
+        return (a + onp.swapaxes(a, -1, -2)) / 2.0 + (n + 1.5) * onp.eye(n)
     if n == m:
         if spd:
             a = a @ onp.conj(onp.swapaxes(a, -1, -2)) + (n + 1.0) * onp.eye(n)
@@ -27,8 +30,9 @@ def _simple(name, expr_t, out_pick=""):
     def s(ch, T, name=name):
         batch = ch.choose("batch", BATCH)
         n = ch.choose("n", [1, 2, 3])
-        x = _mat(T, batch, n)
-        return Case(name, expr_t, dict(x=x), dict(batch=len(batch), n=n), family="L", modes=("rev",))
+        sp = n > 1 and ch.flag("symmetric_point")      # rules must not take short-cuts that only hold ON the symmetric subspace
+        x = _mat(T, batch, n, sympoint=sp)
+        return Case(name, expr_t, dict(x=x), dict(batch=len(batch), n=n, symmetric_point=sp), family="L", modes=("rev",))
     return s
 
 
@@ -41,7 +45,7 @@ def s_slogdet(ch, T):
     batch = ch.choose("batch", BATCH)
     n = ch.choose("n", [1, 2, 3])
     pick = ch.choose("use", ["[1]", ".logabsdet", "", "[0]"])
-    x = _mat(T, batch, n)
+    x = _mat(T, batch, n, sympoint=(n > 1 and ch.flag("symmetric_point")))
     if ch.flag("negative_det"):
         x = x.copy()
         x[..., 0, :] *= -1.0
@@ -52,7 +56,7 @@ def s_slogdet(ch, T):
 def s_pinv(ch, T):
     batch = ch.choose("batch", BATCH[:2])
     n, m = ch.choose("shape", [(2, 2), (2, 3), (3, 2), (1, 2), (3, 3), (1, 1)])
-    return Case("pinv", "np.linalg.pinv(x)", dict(x=_mat(T, batch, n, m)), dict(batch=len(batch), shape="%dx%d" % (n, m)), family="L", modes=("rev",))
+    return Case("pinv", "np.linalg.pinv(x)", dict(x=_mat(T, batch, n, m, sympoint=(n == m and n > 1 and ch.flag("symmetric_point")))), dict(batch=len(batch), shape="%dx%d" % (n, m)), family="L", modes=("rev",))
 
 
 @spec("solve", "L")
@@ -61,7 +65,7 @@ def s_solve(ch, T):
     cfg = ch.choose("batch_rhs", [((), (n,)), ((), (n, 2)), ((2,), (2, n, 1)), ((2,), (2, n, 2)), ((2,), (n, 2)), ((), (2, n, 2)),
                                  ((1, 2), (1, 2, n, 2)), ((2,), (n,))])
     batch, rhs = cfg
-    return Case("solve", "np.linalg.solve(x, y)", dict(x=_mat(T, batch, n), y=T.arr(rhs)),
+    return Case("solve", "np.linalg.solve(x, y)", dict(x=_mat(T, batch, n, sympoint=(n > 1 and ch.flag("symmetric_point"))), y=T.arr(rhs)),
                 dict(n=n, batch=len(batch), rhs_rank=len(rhs), rhs_vector=(len(rhs) == 1),
                      batch_broadcast=(tuple(batch) != tuple(rhs[:-2] if len(rhs) > 1 else ()))), family="L", modes=("rev",))
 
@@ -136,10 +140,15 @@ def s_eig(ch, T):
         return None      # complex Hermitian / general input: the chosen observables are not gauge invariant there (see DESIGN)
     batch = ch.choose("batch", BATCH[:2])
     n = ch.choose("n", [1, 2, 3])
-    obs = ch.choose("observable", ["trace_exp", "sum_real_w2"])
+    obs = ch.choose("observable", ["trace_exp", "sum_real_w2", "v_squared", "reconstruct"])
     e = "np.linalg.eig(x)"
+    # eigenvector observables invariant under the sign (real case) / scale of each column
     expr = {"trace_exp": "np.real(np.sum(np.exp(%s[0]), axis=-1))" % e,
-            "sum_real_w2": "np.real(np.sum(%s[0] ** 2, axis=-1))" % e}[obs]
+            "sum_real_w2": "np.real(np.sum(%s[0] ** 2, axis=-1))" % e,
+            "v_squared": "np.real(%s[1] ** 2)" % e,
+            "reconstruct": "(lambda wv: np.real(np.matmul(wv[1] * wv[0][..., None, :], np.linalg.inv(wv[1]))))(%s)" % e}[obs]
+    if obs in ("v_squared", "reconstruct") and n == 1:
+        return None
     # symmetric-plus-small-skew so that eigenvalues are real, distinct and smooth
     x = _mat(T, batch, n, sym=True)
     return Case("eig", expr, dict(x=x), dict(batch=len(batch), n=n, observable=obs), family="L", modes=("rev",))
